@@ -26,7 +26,7 @@ def make_sched(kind: str):
     return HistoricalScheduler()
 
 
-def perform(scn: Dict[str, Any], kind: str, watchdog: float = 5.0) -> Dict[str, Any]:
+def perform(scn: Dict[str, Any], kind: str, watchdog: float = 5.0, tick: float = 1.0) -> Dict[str, Any]:
     """Returns the observation {ran, clocks} or {hang: True, ...}."""
     from reactivex.internal import ArgumentOutOfRangeException
     from reactivex.scheduler.scheduler import UTC_ZERO
@@ -35,15 +35,15 @@ def perform(scn: Dict[str, Any], kind: str, watchdog: float = 5.0) -> Dict[str, 
     dt = kind == "hist"
 
     def A(t):  # absolute tick -> scheduler time
-        return UTC_ZERO + timedelta(seconds=t) if dt else float(t)
+        return UTC_ZERO + timedelta(seconds=t * tick) if dt else float(t)
 
     def R(d):
-        return timedelta(seconds=d) if dt else float(d)
+        return timedelta(seconds=d * tick) if dt else float(d)
 
     def clk():
         c = s.clock
         if dt:
-            x = (c - UTC_ZERO).total_seconds()
+            x = round((c - UTC_ZERO).total_seconds() / tick, 6)
         else:
             x = float(c)
         return int(x) if x == int(x) else x
@@ -114,6 +114,9 @@ def perform(scn: Dict[str, Any], kind: str, watchdog: float = 5.0) -> Dict[str, 
         signal.signal(signal.SIGALRM, old)
 
 
+_HANGS = [0, 0]  # per process: confirmed hangs, scenarios skipped after the hang budget was used up
+
+
 def _diverge(scn, exp, got):
     """Index (0-based) of the first top-level command after which the observations differ."""
     n = len(scn["top"])
@@ -129,9 +132,16 @@ def _diverge(scn, exp, got):
     return n
 
 
-def judge(scn: Dict[str, Any], allowed: List[Dict[str, Any]], kind: str, watchdog: float = 5.0):
+def judge(scn: Dict[str, Any], allowed: List[Dict[str, Any]], kind: str, watchdog: float = 5.0, tick: float = 1.0):
     """None if the real scheduler's observation is one the spec allows, else a failure record."""
-    got = perform(scn, kind, watchdog)
+    if _HANGS[0] >= 4:   # this process has confirmed several hangs already: do not spend hours on a hanging tree
+        _HANGS[1] += 1
+        return None
+    got = perform(scn, kind, watchdog, tick)
+    if got.get("hang"):  # confirm: a loaded machine must not turn into a verdict
+        got = perform(scn, kind, watchdog * 4, tick)
+        if got.get("hang"):
+            _HANGS[0] += 1
     ok = not (got.get("hang") or got.get("raised") or got["problems"]) and any(
         got["ran"] == e["ran"] and got["clocks"] == e["clocks"] and got["errs"] == e["errs"] for e in allowed)
     if ok:
@@ -146,3 +156,64 @@ def judge(scn: Dict[str, Any], allowed: List[Dict[str, Any]], kind: str, watchdo
             "diverges_at": cmd["c"],
             "target_equals_clock": bool((cmd["c"] == "advance_to" and cmd["a"] == before) or (cmd["c"] == "advance_by" and cmd["a"] == 0)),
             "nitems": scn["n"]}
+
+
+def spin_run(scn: Dict[str, Any], kind: str, max_spinning: int, watchdog: float = 10.0) -> Dict[str, Any]:
+    """C29 at scale: n = mult*MAX_SPINNING + delta same-instant actions, the last one
+    re-scheduling itself `chain` times, run by start() or advance_to(), optionally twice."""
+    import reactivex.scheduler.virtualtimescheduler as vmod
+    from reactivex.scheduler import VirtualTimeScheduler
+    from reactivex.scheduler.scheduler import UTC_ZERO
+    saved = vmod.MAX_SPINNING
+    vmod.MAX_SPINNING = max_spinning
+    s = make_sched(kind)
+    dt = kind == "hist"
+    n = scn["mult"] * max_spinning + scn["delta"]
+    order: List[int] = []
+    clocks: List[Any] = []
+
+    def clk():
+        c = s.clock
+        return (c - UTC_ZERO).total_seconds() if dt else float(c)
+
+    def load(base):
+        left = [scn["chain"]]
+
+        def plain(i):
+            def act(sch, st=None):
+                order.append(i)
+                clocks.append(clk())
+            return act
+
+        def chained(i):
+            def act(sch, st=None):
+                order.append(i)
+                clocks.append(clk())
+                if left[0] > 0:
+                    left[0] -= 1
+                    sch.schedule(chained(i + 1))
+            return act
+        for i in range(n):
+            s.schedule(chained(base + i) if i == n - 1 else plain(base + i))
+
+    old = signal.signal(signal.SIGALRM, _alarm)
+    signal.setitimer(signal.ITIMER_REAL, watchdog)
+    try:
+        rounds = 2 if scn["restart"] else 1
+        for r in range(rounds):
+            load(r * 100000)
+            if scn["driver"] == "start":
+                VirtualTimeScheduler.start(s)
+            else:
+                far = 10 ** 6 * (r + 1)  # a fresh target: advance_to(now) is a separate, known matter
+                s.advance_to(UTC_ZERO + timedelta(seconds=far) if dt else float(far))
+        return {"returned": True, "count": len(order), "fifo": order == sorted(order),
+                "monotone": all(a <= b for a, b in zip(clocks, clocks[1:]))}
+    except Hang:
+        return {"returned": False, "count": len(order), "fifo": order == sorted(order), "monotone": True}
+    except Exception as e:
+        return {"returned": True, "raised": type(e).__name__, "count": len(order), "fifo": True, "monotone": True}
+    finally:
+        signal.setitimer(signal.ITIMER_REAL, 0)
+        signal.signal(signal.SIGALRM, old)
+        vmod.MAX_SPINNING = saved
